@@ -147,20 +147,28 @@ def combinations (a : Annotation) (size : Option Nat) : List Annotation :=
 def combinationsWithReplacement (a : Annotation) (size : Option Nat) : List Annotation :=
   (cwrK (sizeOf a size) (components a)).map (assemble a)
 
+/-- a present list is non-empty and every multiplier is ≥ 1 -/
+def okList (o : Option (List Mod)) : Bool :=
+  match o with
+  | none => true
+  | some l => !l.isEmpty && l.all (fun m => m.mult ≥ 1)
+
+def okInternal (a : Annotation) : Bool :=
+  match a.internal with
+  | none => true
+  | some d => d.all (fun p => 0 ≤ p.1 && p.1 < a.seq.length && !p.2.isEmpty && p.2.all (fun m => m.mult ≥ 1)) &&
+              decide (d.map (·.1)).Nodup
+
+def okCharge (a : Annotation) : Bool :=
+  match a.charge with
+  | some c => c != 0
+  | none => a.adducts.isNone
+
 /-- inputs on which `assemble` is a faithful reading of serialise-then-parse: every present list non-empty,
 multipliers ≥ 1, a non-zero charge, adducts only together with a charge, internal keys inside the sequence and
 unique. (Mod *values* must in addition survive the text round trip - the parser's concern, C01.) -/
 def expandDomain (a : Annotation) : Bool :=
-  let okL : Option (List Mod) → Bool := fun o =>
-    match o with
-    | none => true
-    | some l => !l.isEmpty && l.all (fun m => m.mult ≥ 1)
-  okL a.isotope && okL a.static && okL a.labile && okL a.unknown && okL a.nterm && okL a.cterm && okL a.adducts &&
-  (match a.charge with | some c => c != 0 | none => a.adducts.isNone) &&
-  (match a.internal with
-   | none => true
-   | some d => d.all (fun p => 0 ≤ p.1 && p.1 < a.seq.length && !p.2.isEmpty && p.2.all (fun m => m.mult ≥ 1)) &&
-               (d.map (·.1)).Nodup) &&
-  a.seq.length ≥ 1
+  okList a.isotope && okList a.static && okList a.labile && okList a.unknown && okList a.nterm && okList a.cterm &&
+  okList a.adducts && okCharge a && okInternal a && decide (a.seq.length ≥ 1)
 
 end Pept
